@@ -54,6 +54,9 @@ def run(ctx):
                 cfg.update({"K": 4, "regimes": 2})
             cfgs.append(cfg)
         cfgs.append(tu.gen_config(ctx.rng, joint=True))
+        # data with a flat-lined stretch: a cluster of identical windows has an exactly singular (zero) covariance, the
+        # kind of input on which "robustness" clamps and in-place repairs act
+        cfgs.append(tu.flat_config(ctx.rng))
         # a run that really repopulates a cluster (random donor draws): searched for, not hoped for
         rc = tu.find_repopulating_config(ctx.rng)
         if rc is not None:
